@@ -18,6 +18,7 @@ func LangTagConverter(century int, dateFormat DateFormat) func(float64, string, 
 		P2 = 0
 		for ok := true; ok; ok = P1 == 0 {
 			TAG++
+			verifTick("langtag14")
 			DL, _, _, _, _, _, _ := CalculateDayLenght(float64(TAG), LAT)
 			if DL > 14 {
 				P1 = TAG
@@ -25,6 +26,7 @@ func LangTagConverter(century int, dateFormat DateFormat) func(float64, string, 
 		}
 		for ok := true; ok; ok = P2 == 0 {
 			TAG++
+			verifTick("langtag16")
 			DL, _, _, _, _, _, _ := CalculateDayLenght(float64(TAG), LAT)
 			if DL > 16 {
 				P2 = TAG // Beginn Große Periode
